@@ -919,10 +919,17 @@ class Flow:
                 return None
         return t
 
-    def alternatives(self, l, bb, idx):
-        """[(def block or None, tree)] for each definition of local l reaching (bb, idx)."""
+    def alternatives(self, l, bb, idx, deep=True):
+        """[(def block or None, tree)] for each definition of local l reaching (bb, idx); a single
+        definition that is a plain copy/move of another whole local is looked through (deep)."""
+        rds = self.reaching_defs(l, bb, idx)
+        if deep and len(rds) == 1 and rds[0] != ("entry",) and rds[0][1] != "t":
+            b, j = rds[0]
+            st = self.fn.blocks[b]["s"][j]
+            if st[0] == "=" and st[2][0] == "use" and st[2][1][0] in ("c", "m") and len(st[2][1][1]) == 1 and st[2][1][1][0] != l:
+                return self.alternatives(st[2][1][1][0], b, j, deep)
         out = []
-        for d in self.reaching_defs(l, bb, idx):
+        for d in rds:
             if d == ("entry",):
                 out.append((None, ("arg", l) if 1 <= l <= self.fn.argc else ("local", l)))
                 continue
